@@ -23,6 +23,7 @@ RULE = (
     "relaxed to < 1 % of the drawdown or >= 50 steps, and an admissible gap (C/nx ceiling + E_t + eps_table) below "
     "half the ceiling (otherwise the gap oracle is vacuous - counted separately); or a ladder. Distinct = hash of the "
     "case record."
+    " One case in nine reaches the simulation through a copy.copy / deepcopy / pickle round trip of the fluid or a deepcopy of the reservoir."
 )
 ASSUMPTIONS = [
     "ceiling = 1 - rho(min p_f)/rho(p_i) with rho the table's density column looked up in scaled pseudopressure",
